@@ -84,13 +84,15 @@ def get_facts(repo="/repo", config="default", quiet=True):
     info = {"tree_hash": th, "source_files": nfiles, "config": config, "cached": True, "extract_s": 0.0}
     if os.path.exists(out) and os.path.getsize(out) > 1000:
         return out, info
-    lock = open(os.path.join(CACHE, "lock-" + config), "w")
+    # parallel self-test workers each use a cargo target directory of their own (CAO_WORKER=<n>)
+    slot = config + ("-w" + os.environ["CAO_WORKER"] if os.environ.get("CAO_WORKER") else "")
+    lock = open(os.path.join(CACHE, "lock-" + slot), "w")
     fcntl.flock(lock, fcntl.LOCK_EX)
     try:
         if os.path.exists(out) and os.path.getsize(out) > 1000:
             return out, info
         t0 = time.time()
-        target = os.path.join(CACHE, "target-" + config)
+        target = os.path.join(CACHE, "target-" + slot)
         # cargo's freshness cache would skip the wrapper: forget the workspace member's fingerprints
         for fp in glob.glob(os.path.join(target, "debug", ".fingerprint", "cao-lang-*")):
             shutil.rmtree(fp, ignore_errors=True)
@@ -128,7 +130,7 @@ def get_facts(repo="/repo", config="default", quiet=True):
         lock.close()
 
 
-def _prune(d, keep=24):
+def _prune(d, keep=96):
     fs = sorted(glob.glob(os.path.join(d, "*.json")), key=os.path.getmtime, reverse=True)
     for f in fs[keep:]:
         try:
